@@ -263,6 +263,38 @@ Theorem C16_identifiers_preserved_span_guarded : forall s,
 Proof. exact span_ids_guarded. Qed.
 Print Assumptions C16_identifiers_preserved_span_guarded.
 
+(* ---------- whole OTLP export requests: nothing is carried between loop iterations ---------- *)
+Theorem C16_trace_request_own_service : forall pre r post,
+  trace_request (pre ++ r :: post) =
+  trace_request pre ++
+  map (fun s => span_build (set_service (service_scan [] (rs_attrs r)) s)) (rs_spans r) ++
+  trace_request post.
+Proof. exact trace_request_own_service. Qed.
+Print Assumptions C16_trace_request_own_service.
+
+(* a resource without service.name (or without Resource) stores its spans with the empty
+   service name, whatever resources precede it *)
+Theorem C16_trace_service_not_inherited : forall pre r post s,
+  forallb (fun f => negb (bytes_eqb (fst f) k_service_name)) (rs_attrs r) = true ->
+  In s (rs_spans r) -> lookup (s2b "service") (map_set_all (sp_attrs s) []) = None ->
+  exists e, In e (trace_request (pre ++ r :: post)) /\ e = span_build (set_service [] s) /\
+            lookup (s2b "service") e = Some (SStr []).
+Proof. exact trace_service_not_inherited. Qed.
+Print Assumptions C16_trace_service_not_inherited.
+
+(* the loop with the variable declared outside is a different function *)
+Theorem C16_trace_request_carried_differs : exists rs, trace_request_carried [] rs <> trace_request rs.
+Proof. exact trace_request_carried_differs. Qed.
+Print Assumptions C16_trace_request_carried_differs.
+
+Theorem C16_logs_request_independent : forall pre res scs post,
+  logs_request (pre ++ (res, scs) :: post) =
+  logs_request pre ++
+  flat_map (fun sl => map (fun r => otlp_log_build res (fst sl) r) (snd sl)) scs ++
+  logs_request post.
+Proof. exact logs_request_independent. Qed.
+Print Assumptions C16_logs_request_independent.
+
 (* ---------- metric protocols: the stored point has the name, the tags, the value and the
    instant (seconds resolution) of the logical point ---------- *)
 Theorem C16_point_preserved_otsdb : forall (name : list N) tags v, name <> [] ->
@@ -320,3 +352,20 @@ Example C16_guards_satisfiable :
                      o_attrs := []; o_dropped := 0; o_flags := 0; o_trace := []; o_span := [] |} = 0 /\
   dy_exact_uint (dy_int 7) = true.
 Proof. exact guards_satisfiable. Qed.
+
+(* ---- tie by translation: the Gallina definitions regenerated from dateutils.go by gotrans on
+   every run are the model's unit predicates ---- *)
+From SigG Require Import Gen.
+From SigP Require Import GenC16.
+Theorem C16_code_IsTimeInMilli_is_model : forall t : N,
+  gen_IsTimeInMilli (Z.of_N t) = Proto.is_time_in_milli t.
+Proof. exact gen_IsTimeInMilli_is_model. Qed.
+Print Assumptions C16_code_IsTimeInMilli_is_model.
+Theorem C16_code_IsTimeInNano_is_model : forall t : N,
+  gen_IsTimeInNano (Z.of_N t) = Proto.is_time_in_nano t.
+Proof. exact gen_IsTimeInNano_is_model. Qed.
+Print Assumptions C16_code_IsTimeInNano_is_model.
+Theorem C16_code_normalizeIntToSeconds_is_model : forall z, (-9223372036854775808 <= z < 9223372036854775808)%Z ->
+  Proto.norm_int_to_seconds z = (if (0 <? z)%Z then Some (Z.to_N (gen_normalizeIntToSeconds z)) else None).
+Proof. exact gen_normalizeIntToSeconds_is_model. Qed.
+Print Assumptions C16_code_normalizeIntToSeconds_is_model.
